@@ -1032,4 +1032,75 @@ theorem getRcInterval_defined (stoich : List Int) (c0 : List α) (hlen : stoich.
         exact absurd h1 this.ne'
   · exact ⟨_, _, rfl⟩
 
+/-! ### round 4: `per_substance_varied` -/
+
+theorem pyListIndex_of_getElem? : ∀ (l : List Nat) (a j : Nat), l.Nodup → l[a]? = some j → pyListIndex l j = some a
+  | [], a, j, _, h => by simp at h
+  | b :: l, 0, j, _, h => by
+    simp only [List.getElem?_cons_zero, Option.some.injEq] at h
+    simp [pyListIndex, h]
+  | b :: l, a + 1, j, hnd, h => by
+    simp only [List.getElem?_cons_succ] at h
+    have hnd' := List.nodup_cons.mp hnd
+    have hjl : j ∈ l := List.mem_of_getElem? h
+    have hbj : b ≠ j := fun e => hnd'.1 (e ▸ hjl)
+    simp [pyListIndex, hbj, pyListIndex_of_getElem? l a j hnd'.2 h]
+
+/-- the fold over the user's dict: entries of untouched substances keep the running row; every varied substance (distinct keys)
+    ends up with the level selected by the index on ITS axis -/
+theorem gridPoint_spec {β : Type} (keys idx : List Nat) (hnd : keys.Nodup) : ∀ (varied : List (Nat × List β)) (row : List β),
+    varied.Pairwise (fun p q => p.1 ≠ q.1) →
+    (∀ kv ∈ varied, ∃ (a i : Nat) (v : β), keys[a]? = some kv.1 ∧ idx[a]? = some i ∧ kv.2[i]? = some v) →
+    ∃ out, gridPoint keys idx row varied = .ok out ∧ out.length = row.length ∧
+      (∀ j, (∀ kv ∈ varied, kv.1 ≠ j) → out[j]? = row[j]?) ∧
+      (∀ kv ∈ varied, ∀ (a i : Nat) (v : β), keys[a]? = some kv.1 → idx[a]? = some i → kv.2[i]? = some v → kv.1 < row.length →
+        out[kv.1]? = some v)
+  | [], row, _, _ => ⟨row, by simp [gridPoint, pure, Except.pure]⟩
+  | kv :: rest, row, hpw, hk => by
+    obtain ⟨a, i, v, ha, hi, hv⟩ := hk kv (by simp)
+    have hstep : gridStep keys idx row kv = .ok (row.set kv.1 v) := by
+      simp [gridStep, pyListIndex_of_getElem? keys a kv.1 hnd ha, hi, hv, pure, Except.pure]
+    have hpw' := List.pairwise_cons.mp hpw
+    obtain ⟨out, hout, hlen, hun, hva⟩ := gridPoint_spec keys idx hnd rest (row.set kv.1 v) hpw'.2
+      (fun kv' hkv' => hk kv' (List.mem_cons_of_mem _ hkv'))
+    refine ⟨out, by simp [gridPoint, hstep, bind, Except.bind, hout], by simpa using hlen, ?_, ?_⟩
+    · intro j hj
+      have hne : kv.1 ≠ j := hj kv (by simp)
+      rw [hun j (fun kv' hkv' => hj kv' (List.mem_cons_of_mem _ hkv')), List.getElem?_set_ne hne]
+    · intro kv' hkv' a' i' v' ha' hi' hv' hlt
+      rcases List.mem_cons.mp hkv' with rfl | hin
+      · -- the head: written now, untouched by the rest (distinct keys)
+        rw [hun kv'.1 (fun q hq => (hpw'.1 q hq).symm)]
+        have ea : a' = a := by
+          have h1 := pyListIndex_of_getElem? keys a kv'.1 hnd ha
+          have h2 := pyListIndex_of_getElem? keys a' kv'.1 hnd ha'
+          rw [h1] at h2; exact (Option.some.inj h2).symm
+        subst ea
+        rw [hi] at hi'; cases hi'
+        rw [hv] at hv'; cases hv'
+        simp [List.getElem?_set_self hlt]
+      · exact hva kv' hin a' i' v' ha' hi' hv' (by simpa using hlt)
+
+theorem variedKeys_nodup {β : Type} (ns : Nat) (varied : List (Nat × β)) : (variedKeys ns varied).Nodup :=
+  List.Nodup.sublist List.filter_sublist List.nodup_range
+
+theorem variedKeys_sorted {β : Type} (ns : Nat) (varied : List (Nat × β)) : (variedKeys ns varied).Pairwise (· < ·) :=
+  List.Pairwise.filter _ List.pairwise_lt_range
+
+theorem mem_variedKeys {β : Type} (ns : Nat) (varied : List (Nat × β)) (j : Nat) :
+    j ∈ variedKeys ns varied ↔ j < ns ∧ ∃ kv ∈ varied, kv.1 = j := by
+  simp [variedKeys, List.mem_filter, List.mem_range]
+
+theorem lookup_of_pairwise {β : Type} : ∀ (varied : List (Nat × β)) (kv : Nat × β),
+    varied.Pairwise (fun p q => p.1 ≠ q.1) → kv ∈ varied → varied.lookup kv.1 = some kv.2
+  | [], kv, _, h => by simp at h
+  | p :: rest, kv, hpw, h => by
+    have hpw' := List.pairwise_cons.mp hpw
+    rcases List.mem_cons.mp h with rfl | hin
+    · simp [List.lookup]
+    · have hne : kv.1 ≠ p.1 := (hpw'.1 kv hin).symm
+      have : (kv.1 == p.1) = false := by simpa using hne
+      simp [List.lookup, this, lookup_of_pairwise rest kv hpw'.2 hin]
+
 end ChemModel.EqSolve
+
